@@ -25,7 +25,7 @@ def evaluate(sid, prop, checks):
         return {'error': 'patch does not apply: ' + (p.stdout + p.stderr)[:200]}
     for c in checks:
         env = dict(os.environ, POKERKIT_ROOT=d, VERIF_REPLAY_DIR=d + '/replays', VERIF_EVIDENCE_DIR=d + '/evidence',
-                   VERIF_WORKERS=os.environ.get('SENS_WORKERS', '8'), VERIF_FAST_FAIL='1')
+                   VERIF_WORKERS=os.environ.get('SENS_WORKERS', '8'), VERIF_FAST_FAIL='1', VERIF_MINIMISE_SCALE=os.environ.get('SENS_MINIMISE_SCALE', '0.35'))
         t0 = time.time()
         out = subprocess.run([os.path.join(HERE, 'check'), c, '--tier', 'quick'], capture_output=True, text=True, env=env)
         line = next((l for l in out.stdout.splitlines() if l.startswith('VIOLATION')), None)
